@@ -226,5 +226,5 @@ Proof. vm_compute. reflexivity. Qed.
 Theorem tables_lifetime_facts : forallb snd lifetime_facts = true.
 Proof. vm_compute. reflexivity. Qed.
 
-Theorem tables_lifetime_facts_present : 16 <= length lifetime_facts.
+Theorem tables_lifetime_facts_present : 18 <= length lifetime_facts.
 Proof. vm_compute. lia. Qed.
